@@ -3,7 +3,7 @@ CONSTANTS
   Script <- ScriptA
   Names = {"a", "b"}
   MaxCliOps = 3
-  FaultKinds = {"garbage", "oversize", "trunc", "closein", "waitabort"}
+  FaultKinds = {"garbage", "oversize", "trunc", "closein", "waitabort", "closeout"}
   AllowZZ = TRUE
   AllowEarly = TRUE
   AnyName = TRUE
